@@ -28,6 +28,13 @@ Calibration
   violation; NotImplementedError (two-dimensional chunk grid) is unsupported.
 * Labels carry only the code path (tsqr / sfqr / tsqr-of-transpose / single, recursive, shape-contradicts-chunking);
   matrix flavour and short blocks are in the witness detail, so one mechanism does not fan out into many labels.
+
+Sibling facet (vf/mon/siblings.py): every case is also built a second time with ONE result-relevant parameter changed
+(tensordot over other axes, einsum with another output subscript, svd with the other coerce_signs (s may be shared)).
+The two lazily built collections must not share output keys unless their stand-alone values are equal (label
+``<op>:<param>-not-in-name:siblings-share-keys``); for a seeded ~15 % of the cases both are also computed in one graph and
+compared with their stand-alone values (``<op>:<param>:differs-when-computed-with-sibling``).  Counters siblings_built /
+siblings_computed_together / siblings_with_different_values have floors.
 """
 from __future__ import annotations
 
